@@ -248,11 +248,12 @@ fn qps() -> Vec<Qp> {
         let nv = 3;
         let has_c = !(c == 'N' || c == 'B');
         let k = (o as usize + vk as usize * 3 + c as usize * 7) % 4;
+        let nolin = (o as usize + vk as usize + c as usize) % 3 == 0;   // no linear terms at all: objective / constraint 2 are purely quadratic + constant
         v.push(Qp { o, v: vk, c, maximize: k % 2 == 1, nvars: nv,
             q0: if o == 'L' { vec![] } else if o == 'D' { vec![(0, 0, 4.0), (2, 2, -2.0)] } else { vec![(0, 0, 4.0), (1, 0, 3.0), (2, 1, -1.0), (2, 2, 1.0)] },
-            b0_default: if k == 0 { 0.0 } else { 1.5 }, b0: if k == 2 { vec![(1, 0.0), (2, -2.0)] } else { vec![(0, 2.0)] }, q0c: [0.0, 3.0, -1.5, 7.0][k],
+            b0_default: if k == 0 || nolin { 0.0 } else { 1.5 }, b0: if nolin { vec![] } else if k == 2 { vec![(1, 0.0), (2, -2.0)] } else { vec![(0, 2.0)] }, q0c: if nolin { 3.0 } else { [0.0, 3.0, -1.5, 7.0][k] },
             qi: if has_c && c != 'L' { if c == 'D' { vec![(0, 1, 1, 2.0)] } else { vec![(0, 0, 0, 2.0), (0, 1, 0, 1.0), (1, 2, 2, -4.0), (1, 2, 0, 0.5)] } } else { vec![] },
-            bi: if has_c { vec![(0, 0, 1.0), (0, 2, -1.0), (1, 1, 2.0)] } else { vec![] }, inf,
+            bi: if has_c { if nolin && c != 'L' { vec![(0, 0, 1.0), (0, 2, -1.0)] } else { vec![(0, 0, 1.0), (0, 2, -1.0), (1, 1, 2.0)] } } else { vec![] }, inf,
             cl: if has_c { vec![-inf, 1.0] } else { vec![] }, cu: if has_c { vec![[4.0, 0.0, -2.0, 5.0][k], if k == 3 { 6.0 } else { inf }] } else { vec![] },
             lb: vec![0.0, [-3.0, -inf, 0.0, 1.0][k], -1e21], ub: vec![1.0, 5.0, if k == 1 { 2e20 } else { 8.0 }],
             types: vec![if vk == 'M' { 2 } else { 1 }, 0, if vk == 'G' { 1 } else { 0 }], names: if k % 2 == 0 { vec![(0, "alpha"), (2, "gamma")] } else { vec![] } });
@@ -307,7 +308,7 @@ pub fn c19() -> Outcome {
     for (qi, q) in qps().iter().enumerate() { for comments in [false, true] {
         n += 1; d.insert((qi, comments));
         let text = render_qp(q, comments);
-        if qi == 71 { note(|| format!("QPLIB text ({}{}{}, comments={comments}):\n{text}", q.o, q.v, q.c)); }
+        if qi == 71 || qi == 3 { note(|| format!("QPLIB text ({}{}{}, comments={comments}):\n{text}", q.o, q.v, q.c)); }
         let i = match load(&text) { Ok(i) => i, Err(e) => fail!(n, d, "well-formed QPLIB text ({}{}{}) was rejected ({e}):\n{text}", q.o, q.v, q.c) };
         if let Err(e) = check_qp(q, &i) { fail!(n, d, "QPLIB {}{}{} (comments={comments}): {e}\n--- text ---\n{text}", q.o, q.v, q.c); }
     } }
